@@ -9,6 +9,7 @@ import (
 
 	"github.com/smart-core-os/sc-api/go/traits"
 	"github.com/smart-core-os/sc-golang/internal/testproto"
+	"github.com/smart-core-os/sc-golang/pkg/cmp"
 	"github.com/smart-core-os/sc-golang/verifharness/lib"
 	"google.golang.org/protobuf/proto"
 	pref "google.golang.org/protobuf/reflect/protoreflect"
@@ -148,7 +149,42 @@ func directedP() []pcase {
 	}
 }
 
+// malformedUnknown: unknown-field bytes that protowire cannot parse (truncated tag / value). The model
+// only has well-formed records, so these pairs are monitored only: cmp.Equal() must behave exactly like
+// proto.Equal on them, verdict or panic alike.
+func runMalformedUnknown(ms *monitors) {
+	u := func(b ...byte) proto.Message {
+		m := &testproto.ForeignMessage{C: 1}
+		m.ProtoReflect().SetUnknown(b)
+		return m
+	}
+	raws := [][]byte{
+		{}, {0xc0}, {0xc0, 0x3e}, {0xc8, 0x3e}, {0xc0, 0x3e, 0x80}, {0xc2, 0x3e, 0x05, 0x01}, {0xc2, 0x3e, 0x01, 0x01},
+		{0xc0, 0x3e, 0x01}, {0xc0, 0x3e, 0x01, 0xc8}, {0xc5, 0x3e, 0x01}, {0xff, 0xff}, {0x00, 0x00}, {0x07, 0x01},
+	}
+	plain := cmp.Equal()
+	for _, a := range raws {
+		for _, b := range raws {
+			x, y := u(a...), u(b...)
+			var want string
+			var r bool
+			if p, msg := lib.Catch(func() { r = proto.Equal(x, y) }); p {
+				want = "panic:" + msg
+			} else {
+				want = b2s(r)
+			}
+			got := callCmp(plain, x, y)
+			ms.equal.Eval(fmt.Sprintf("malformed %x %x", a, b), true, nil)
+			ms.equal.Count("malformed-unknown:" + firstLabel(want))
+			if got != want {
+				ms.equal.Violate("C16/Equal/malformed-unknown/differs-from-proto.Equal", "cmp.Equal() and proto.Equal behave differently on unparsable unknown fields", map[string]any{"op": "malformed", "x": fmt.Sprintf("%x", a), "y": fmt.Sprintf("%x", b)}, want, got)
+			}
+		}
+	}
+}
+
 func runDirected(f lib.Flags, res *lib.Result, drv *lib.Driver, ms *monitors) {
+	runMalformedUnknown(ms)
 	tie := res.Tie("directed-corner-cases", "K2",
 		"fixed list: one small case per special-value rule and per repaired/known defect (change_time presence and value, NaN, ±0, presence vs default, empty message/bytes, map keys, typed nil, unknown-field order, non-finite floats under FloatValueApprox, tolerance boundaries, overflowing durations, saturating Time.Sub, DurationValueWithinP, read-mask seed, tolerance drift in Collection.Pull, include boundary crossed within the tolerance)")
 	tie.Exhaustive = true
